@@ -42,9 +42,25 @@ def run_item(item, verbose=False):
     E = ConcreteEngine(item["values"])
     if verbose:
         E.verbose = True
+    from oracle.wire import WireError
+
+    from .runner import WIRE_LABEL
+
     try:
         try:
-            fn(E, M, item["case"])
+            try:
+                fn(E, M, item["case"])
+            except WireError as exc:
+                E.require(False, WIRE_LABEL, {"error": str(exc)})
+            except (ConcreteViolation, MissingValue, OutOfDomain):
+                raise
+            except Exception as exc:  # noqa: BLE001
+                from . import loader
+                from .runner import ESCAPE_LABEL, raised_in_repo
+
+                if not raised_in_repo(exc, loader.src_dir()):
+                    raise
+                E.require(False, ESCAPE_LABEL, {"exception": repr(exc)[:300]})
         finally:
             E.dead = True
             if E.teardown:
